@@ -1,13 +1,14 @@
 // verifharness: correspondence harness between the Coq models (run through the
 // extracted OCaml driver) and the wrgl implementation in /repo.
 //
-//   verifharness gen <prop> <seed> <tier> <outfile>     generate cases, run impl, write C/I lines
-//   verifharness replay <prop> <casefile> <outfile>     run impl on the cases of a replay file
+//	verifharness gen <prop> <seed> <tier> <outfile>     generate cases, run impl, write C/I lines
+//	verifharness replay <prop> <casefile> <outfile>     run impl on the cases of a replay file
 //
 // Output, three lines per case:
-//   C <case tree>
-//   I <implementation observation tree>
-//   @ <tag> <nontrivial 0|1> <spec ok|FAIL> <class> <message>
+//
+//	C <case tree>
+//	I <implementation observation tree>
+//	@ <tag> <nontrivial 0|1> <spec ok|FAIL> <class> <message>
 package main
 
 import (
